@@ -349,6 +349,17 @@ def check_block_layers(ctx, prog, tag):
                "included template the block of the includer is not in the table and super() panics" % c.name.split("::")[-1],
                ps.where(c.bb))
     ctx.floor("C06.I5 block table lookups in perform_super" + tag, len(lookups), 2)
+    # -- the layer cursor moved by super() is moved back on every path (also when the parent's body fails): a State
+    # that is used again (render_block on a captured state) must find the most-derived layer
+    from .pairs import success_blocks
+    pops_ = [c.bb for c in ps.calls_to(BS + "::pop")]
+    for c in pushes:
+        starts_ = success_blocks(ps, c)
+        lost = any(r in cfg.reach_from(ps, s_, avoid=pops_) for s_ in starts_ for r in ps.returns())
+        ctx.ob("C06.I5.super-restores-the-layer-cursor-on-every-path", tag + "perform_super", bool(starts_) and not lost,
+               "a path from a successful BlockStack::push() to a return of perform_super skips BlockStack::pop() (e.g. the "
+               "error return of a failing parent body): the block stays one layer up and later renders of the same state "
+               "show the parent's definition instead of the most derived one", ps.where(c.bb))
     for fn_, nm in ((ps, "perform_super"), (prog.fn(CB), "call_block")):
         ok = False
         for c in fn_.calls_to(WES):
@@ -360,6 +371,34 @@ def check_block_layers(ctx, prog, tag):
         ctx.ob("C06.I5.renders-the-selected-layer", tag + nm, ok,
                "%s evaluates instructions that do not come from BlockStack::instructions() (after push() for "
                "super)" % nm, fn_.loc)
+
+
+def extends_capture_pairing(prog):
+    """(opened_on_every_path, closed_on_every_path) for the discarding capture of `{% extends %}`: after a successful
+    load_blocks every path back to the instruction fetch passes begin_capture(Discard); once the stashed parent
+    instructions are taken (Some side) every path back to the fetch passes end_capture."""
+    ev = prog.fn(EI)
+    heads = [x.bb for x in ev.calls() if x.name == "minijinja::compiler::instructions::Instructions::get"]
+    opened = None
+    for c in ev.calls_to(LB):
+        okb = errflow.ok_err_blocks(ev, c)
+        if not okb or not okb[0]:
+            continue
+        disc = []
+        for k in ev.calls_to(BEGIN):
+            for o in flow.origins(ev, k.args[1]):
+                if (o.kind == "agg" and o.rv.get("variant") == "Discard") or (o.kind == "const" and "Discard" in o.const.get("d", "")):
+                    disc.append(k.bb)
+        opened = bool(disc) and all(cfg.paths_must_pass(ev, b, disc, heads) for b in okb[0])
+    closed = False
+    for k in [c for c in ev.calls() if c.name == "core::option::Option::take"]:
+        sp = errflow.result_split(ev, k.dest["l"]) if k.dest and "p" not in k.dest else None
+        if sp and sp.switches:
+            for (sb, none_t, some_t, other, adt) in sp.switches:
+                ends = [x.bb for x in ev.calls_to(END)]
+                if some_t and all(cfg.paths_must_pass(ev, st, ends, heads) for st in some_t):
+                    closed = True
+    return opened, closed
 
 
 def run(ctx):
